@@ -1071,6 +1071,16 @@ func genC20(t *rapid.T) CaseC20 {
 		if !wild {
 			added = append(added, "a")
 		}
+		if !wild && rapid.IntRange(0, 11).Draw(t, "passChain") == 0 {
+			// a chain of pass-through nodes that can only be typed backwards (from END), the typing edge added last:
+			// well-formed, so every attempt must accept it
+			c.Ops = append(c.Ops, Op20{K: "node", A: "b", Kind: "pass"}, Op20{K: "node", A: "c", Kind: "pass"})
+			if rapid.Bool().Draw(t, "threePass") {
+				c.Ops = append(c.Ops, Op20{K: "node", A: "d", Kind: "pass"}, Op20{K: "edge", A: "d", B: "b"})
+			}
+			c.Ops = append(c.Ops, Op20{K: "edge", A: "b", B: "c"}, Op20{K: "edge", A: "c", B: "end"}, Op20{K: "compile", Mode: "pregel"})
+			return c
+		}
 		if !wild && rapid.IntRange(0, 11).Draw(t, "scenario") == 0 {
 			// a node entered twice from the same source (edge + branch, or two branches), optionally on a
 			// cycle, compiled in all-predecessor mode: cycle detection must not be fooled by the double entry
